@@ -101,6 +101,15 @@ class GenRule:
         if tr == 'service::Help' and ci.name == 'command_help':
             ty = ci.gargs[0] if ci.gargs else {}
             t = F.norm_path(ty.get('path')) if ty.get('k') == 'adt' else ty.get('s')
+            if getattr(self, 'subhelp_outcomes', False):
+                # group level: the member either answers, does not know the command, or fails to write
+                he = I.adts['service::HelpError']
+                vi = {v['name']: i for i, v in enumerate(he['variants'])}
+                nm = self._nm(args[1])
+                return [(w.with_st((word + (('subhelp', t, nm, 'Ok'),), nconv)), ok(UNIT)),
+                        (w.with_st((word + (('subhelp', t, nm, 'Unknown'),), nconv)), err(('adt', 'service::HelpError', vi['UnknownCommand'], ()))),
+                        (w.with_st((word + (('subhelp', t, nm, 'Write'),), nconv)),
+                         err(('adt', 'service::HelpError', vi['WriteError'], (('sym', 'sink-error'),))))]
             return [(w.with_st((word + (('subhelp', t, self._nm(args[1])),), nconv)), ok(UNIT))]
         if tr == 'service::Help' and ci.name == 'list_commands':
             ty = ci.gargs[0] if ci.gargs else {}
@@ -168,8 +177,9 @@ def render(I, v, depth=0):
     return k
 
 
-def explore(crates, fn, command, syms, depth, kind, arg_count=None):
+def explore(crates, fn, command, syms, depth, kind, arg_count=None, subhelp_outcomes=False):
     rule = GenRule(command, syms, depth, kind)
+    rule.subhelp_outcomes = subhelp_outcomes
     I = Interp(crates, rule, max_worlds=400000)
     n = fn.body['arg_count']
     if kind == 'parse':
